@@ -86,6 +86,12 @@ def run_stream(name, fn, n, seed, gsv, maxdiff=10):
     return len(diffs), len(bad_i) + len(bad_m), problems
 
 
+def lines_exhaustive(_rng, _n):
+    """all byte strings over gens.ALPHABET up to length 3, as hdr / value / pdu requests (ignores rng, n)"""
+    strs = list(gens.exhaustive_small(gens.ALPHABET, 3))
+    return ["%s %s" % (k, gens.hx(s)) for k in ("hdr", "value", "pdu") for s in strs]
+
+
 def main():
     ap = argparse.ArgumentParser()
     ap.add_argument("-n", type=int, default=3000)
@@ -104,6 +110,9 @@ def main():
     total = {}
     for name in names:
         total[name] = run_stream(name, getattr(gens, name), a.n, a.seed, gsv)
+    if not a.streams or "exhaustive" in a.streams:
+        total["exhaustive<=3"] = run_stream("exhaustive<=3", lines_exhaustive, 3 * sum(16 ** k for k in range(4)),
+                                            a.seed, gsv)
     print("=" * 100)
     print("summary (stream: disagreements, bad-ops, problems)")
     for name, (d, b, p) in total.items():
